@@ -220,6 +220,7 @@ theorem c11_star {env : MEnv} (hwf : WF env = true) (hc : classesOK env = true)
     cases vs with
     | path s => exact hvs
     | lit v => simpa [valUnsupported, ValWF] using hvu
+    | val v => trivial
   have hev := evalVal_spec hwf hc { heap := h } target vs hvs'
   simp only [hv] at hev
   have hspec := fetch_spec hwf hc h orig.dropLast hw (.inr (noScope_isScope hns h)) 0 target
@@ -326,14 +327,17 @@ example :
     yet), the object the factory creates gets exactly that address, the key turns from hashable
     into an unhashable dict between the first fetch and the re-fetch of the prefix, and the model
     (like the code would) fails where the prescription, computed on the original heap, succeeds.
-    A Python program cannot hold a reference to an object that does not exist yet. -/
+    A Python program cannot hold a reference to an object that does not exist yet (reading
+    issue, not a defect: the harness' heaps are closed, and `argsScalar` holds for every path
+    whose segments are strings / ints / None / bools). -/
 theorem c11_dangling_key_counterexample :
-    let h : Heap := [.dict "dict" [(.ref 1, .int 0)]]
+    let h : Heap := [.dict "dict" [(.ref 1, .ref 0)]]
     let path : List Step := [("[", .ref 1), ("[", .str "n"), ("[", .str "z")]
     missingOK exEnv path (.factory "dict") = false ∧
-    (∃ e, (assign exEnv false .none (.factory "dict") h (.ref 0) path (.lit (.int 5))).2 = .error e) ∧
-    (∃ h' hid n, refAssign exEnv h (.ref 0) (.ref 0) path (.lit (.int 5)) (.factory "dict") = .ok h' hid n) := by
-  refine ⟨by decide, ⟨_, by decide⟩, ?_⟩
-  sorry
+    (assign exEnv false .none (.factory "dict") h (.ref 0) path (.lit (.int 5))).2 =
+      .error (.pae 0 (exc "TypeError")) ∧
+    refAssign exEnv h (.ref 0) (.ref 0) path (.lit (.int 5)) (.factory "dict") =
+      .ok [.dict "dict" [(.ref 1, .ref 0), (.str "n", .ref 1)], .dict "dict" [(.str "z", .int 5)]]
+        false 1 := by decide
 
 end Glom.Props.C11
